@@ -18,6 +18,7 @@ import (
 	sdkmath "cosmossdk.io/math"
 	sdk "github.com/cosmos/cosmos-sdk/types"
 	banktypes "github.com/cosmos/cosmos-sdk/x/bank/types"
+	crisistypes "github.com/cosmos/cosmos-sdk/x/crisis/types"
 	govv1 "github.com/cosmos/cosmos-sdk/x/gov/types/v1"
 
 	fxtypes "github.com/functionx/fx-core/v8/types"
@@ -126,6 +127,10 @@ func main() {
 		// first, then proposal 1 closes and its refund loop reaches the governance account's own deposit
 		{{{Kind: "gov_proposal", A: 2}, {Kind: "gov_proposal_dep", A: 0, B: 0}}, {{Kind: "gov_vote", A: 0, B: 1}, {Kind: "gov_vote", A: 1, B: 1}}, {}, {}, {}, {}, {}},
 		{{{Kind: "gov_proposal", A: 10}}, {}, {{Kind: "gov_cancel", B: 0}}, {}, {}, {}, {}},
+		// a passed proposal whose handler panics (both validators vote yes): the panic must stay inside x/gov
+		// (the second proposal only parks a 20 000 FX deposit in the gov account: deposits of the executing proposal itself
+		// are refunded before its messages run, so the fee can only be charged to somebody else's deposit)
+		{{{Kind: "gov_proposal_panic"}, {Kind: "gov_proposal_panic"}}, {{Kind: "gov_vote", A: 0, B: 0}, {Kind: "gov_vote", A: 1, B: 0}}, {}, {}, {}, {}, {}},
 		{{{Kind: "gov_proposal", A: 10}, {Kind: "gov_proposal", A: 20}}, {}, {}, {{Kind: "gov_cancel", B: 1}}, {}, {}, {}, {}},
 	} {
 		sc := history{Seed: 434343 + int64(k), Module: "bsc", Stakes: []int64{20000, 30000}, Window: 3, GovQuorum: "0.4", Blocks: blocks}
@@ -393,6 +398,13 @@ func runHistory(r *lib.Rand, hseed int64, module string, rep *lib.Report, items 
 				proposals++
 				target := uint64(1 + int(o.B)%(proposals-1))
 				o.Res = errClass(submitDepositProposal(c, user, target, o.A%2 == 0))
+			case "gov_proposal_panic":
+				// a proposal whose message handler PANICS when executed: crisis MsgVerifyInvariant sent by the governance
+				// account for the gov module-account invariant — the handler first charges the constant fee (13 333 FX) to
+				// the gov account, i.e. takes it out of the deposits held there, which breaks exactly that invariant, and
+				// x/crisis panics by design.  x/gov must recover the panic (safeExecuteHandler) and fail the proposal.
+				proposals++
+				o.Res = errClass(submitPanicProposal(c, user))
 			case "gov_proposal":
 				// a bank send out of the gov account (fails at execution: gov has no such funds) or a text-like proposal;
 				// exercises the real gov end blocker (deposit refund/burn, tally, failing message)
@@ -405,7 +417,7 @@ func runHistory(r *lib.Rand, hseed int64, module string, rep *lib.Report, items 
 			fmt.Fprintf(os.Stderr, "block %d time %s ops %+v govq=%s\n", b, c.Ctx.BlockTime().Format("15:04:05"), ops, h.GovQuorum)
 			for pid := uint64(1); pid <= uint64(proposals); pid++ {
 				if pr, err := c.App.GovKeeper.Proposals.Get(c.Ctx, pid); err == nil {
-					fmt.Fprintf(os.Stderr, "   proposal %d status %s end %v deposit %s\n", pid, pr.Status, pr.VotingEndTime, sdk.NewCoins(pr.TotalDeposit...))
+					fmt.Fprintf(os.Stderr, "   proposal %d status %s end %v deposit %s reason %q\n", pid, pr.Status, pr.VotingEndTime, sdk.NewCoins(pr.TotalDeposit...), pr.FailedReason)
 				}
 			}
 		}
@@ -442,11 +454,16 @@ func runHistory(r *lib.Rand, hseed int64, module string, rep *lib.Report, items 
 			rep.Count("block=prune-eligible")
 		}
 	}
+	for pid := uint64(1); pid <= uint64(proposals); pid++ {
+		if pr, err := c.App.GovKeeper.Proposals.Get(c.Ctx, pid); err == nil && strings.Contains(pr.FailedReason, "PANICKED") {
+			rep.Count("gov=handler-panic-recovered")
+		}
+	}
 	return h
 }
 
 func genOp(r *lib.Rand, nOracles int) op {
-	kinds := []string{"bridge_call", "bridge_call", "inject_batch", "inject_batch", "confirm_oset", "confirm_oset", "confirm_batch", "confirm_bcall", "confirm_bcall", "add_delegate", "gov_proposal", "top_up", "top_up", "gov_vote", "gov_vote", "set_window", "gov_cancel", "gov_proposal_dep", "observe_oset", "observe_oset", "set_pct"}
+	kinds := []string{"bridge_call", "bridge_call", "inject_batch", "inject_batch", "confirm_oset", "confirm_oset", "confirm_batch", "confirm_bcall", "confirm_bcall", "add_delegate", "gov_proposal", "top_up", "top_up", "gov_vote", "gov_vote", "set_window", "gov_cancel", "gov_proposal_dep", "observe_oset", "observe_oset", "set_pct", "gov_proposal_panic"}
 	return op{Kind: kinds[r.Intn(len(kinds))], A: r.Intn(nOracles + 6), B: uint64(r.Intn(8))}
 }
 
@@ -464,6 +481,26 @@ func submitDepositProposal(c *lib.Chain, user lib.Key, target uint64, expedited 
 		}
 		inner := govv1.NewMsgDeposit(sdk.MustAccAddressFromBech32(lib.GovAuthority()), target, sdk.NewCoins(sdk.NewCoin(params.MinDeposit[0].Denom, params.MinDeposit[0].Amount.QuoRaw(10))))
 		m, err := govv1.NewMsgSubmitProposal([]sdk.Msg{inner}, dep, user.Acc().String(), "", "t", "s", expedited)
+		if err != nil {
+			return err
+		}
+		_, err = c.App.MsgServiceRouter().Handler(m)(ctx, m)
+		return err
+	})
+}
+
+func submitPanicProposal(c *lib.Chain, user lib.Key) error {
+	return c.Try(func(ctx sdk.Context) error {
+		params, err := c.App.GovKeeper.Params.Get(ctx)
+		if err != nil {
+			return err
+		}
+		dep := sdk.NewCoins(params.MinDeposit...)
+		if len(dep) > 0 && dep[0].Amount.LT(lib.FX(20000).Amount) {
+			dep = sdk.NewCoins(sdk.NewCoin(dep[0].Denom, lib.FX(20000).Amount))
+		}
+		msgs := []sdk.Msg{&crisistypes.MsgVerifyInvariant{Sender: lib.GovAuthority(), InvariantModuleName: "gov", InvariantRoute: "module-account"}}
+		m, err := govv1.NewMsgSubmitProposal(msgs, dep, user.Acc().String(), "", "panicking handler", "s", false)
 		if err != nil {
 			return err
 		}
